@@ -94,19 +94,15 @@ Definition atransfer (len p : nat) (sh : shape) (a : astate) : aresult :=
   | SBadOperand => AErr BadOperand
   | SSimple e =>
     if e_need_dice e && (a_dice a =? 0) then AErr NoDiceState
-    else if (a_lo a <? e_pops e) && negb (e_soft e) then AErr Underflow
+    else if a_lo a <? e_pops e then AErr Underflow
     else if e_need_det e && negb (a_det a) then AErr NoDetail
     else if e_need_last e && negb (a_last a) then AErr NoLastPop
     else AOk [ (nxt, {| a_lo := a_lo a - e_pops e + e_push e; a_blocks := a_blocks a; a_fb := a_fb a;
                         a_fd := fd_after (a_fd a) (e_pops e) (e_push e);
                         a_dice := a_dice a + e_dice_up e - e_dice_down e;
                         a_det := a_det a || (0 <? e_det_up e);
-                        a_last := a_last a || ((0 <? e_pops e) && negb (e_soft e)) |}) ]
+                        a_last := a_last a || ((0 <? e_pops e) && negb (e_quiet e)) |}) ]
   | SPeek => if a_lo a =? 0 then AErr Underflow else AOk [ (nxt, a) ]
-  | SDefExpr =>
-    if a_dice a =? 0 then AErr NoDiceState
-    else AOk [ (nxt, {| a_lo := S (a_lo a); a_blocks := a_blocks a; a_fb := a_fb a; a_fd := fd_after (a_fd a) 0 1;
-                        a_dice := a_dice a; a_det := a_det a; a_last := a_last a |}) ]
   | SJmp off =>
     match jump_target len p off with
     | None => AErr BadJump
